@@ -529,6 +529,46 @@ pub fn c02(tier: &str, seed: u64) {
     }
   }
   stat_n("oracle.coefficients_checked", coeff_total as u64);
+  // thresholds at integer-width boundaries: two clients only (far below threshold). Their shares
+  // must not recover, must differ in y (non-constant polynomial) and must not carry K
+  for &t in &[255u32, 256, 257, 65535, 65536, 65537, 65538] {
+    let m = g.bytes(16);
+    let e = g.blob(2);
+    let cl: Vec<Client> = (0..2).map(|_| make_client(&m, &e, t, None, None)).collect();
+    let sb: Vec<Vec<u8>> = cl.iter().map(|c| c.msg.share.to_bytes()).collect();
+    let d = vec![("measurement", hex(&m)), ("epoch", hex(&e)), ("threshold", t.to_string()), ("shares", hexlist(&sb))];
+    if sb[0][8..32] != sb[1][8..32] && sb[0][32..56] == sb[1][32..56] {
+      fail("constant_sharing_polynomial", &d);
+    }
+    let shares: Vec<sta_rs::Share> = cl.iter().map(|c| c.msg.share.clone()).collect();
+    if share_recover(&shares).is_ok() {
+      fail("sub_threshold_recovery_did_not_fail", &d);
+    }
+    // K from the transcript, as above
+    let rnd = cl[0].rnd;
+    let mut r0 = [0u8; 32];
+    sta_rs::strobe_digest(&rnd, &[&[0u8]], "star_derive_randoms", &mut r0);
+    let mut r1 = [0u8; 32];
+    sta_rs::strobe_digest(&rnd, &[&[1u8]], "star_derive_randoms", &mut r1);
+    let mut tr = Strobe::new(b"adss", SecParam::B128);
+    tr.ad(&t.to_le_bytes(), false);
+    tr.ad(&r0, false);
+    tr.key(&r1, false);
+    let mut j = [0u8; 64];
+    tr.send_mac(&mut j, false);
+    let mut kk = [0u8; 16];
+    tr.prf(&mut kk, false);
+    for b in &sb {
+      if let Some(off) = contains(b, &kk) {
+        let mut dd = d.clone();
+        dd.push(("secret", "sharing key K".into()));
+        dd.push(("offset", off.to_string()));
+        fail("secret_in_clear_in_report", &dd);
+      }
+    }
+    case(true);
+    stat("oracle.boundary_thresholds");
+  }
 }
 
 // ---------------------------------------------------------------------------------------------
